@@ -172,7 +172,34 @@ func checkLiveness(nw *Network, res *CaseResult, cycles int, idle bool, bound in
 	live := []*SimNode{}
 	for _, n := range nw.Nodes {
 		if n.babbling() && !n.Silent {
+			if n.ResetEpochs > 0 && n.InsertFailedStep >= 0 {
+				// a fast-forwarded node that had to refuse events it received (parents below
+				// its frame: documented limitation) cannot follow any more; it is not part of
+				// the live set whose progress is judged
+				res.count("liveness_reset_nodes_that_cannot_insert_excluded", 1)
+				continue
+			}
 			live = append(live, n)
+		}
+	}
+	if !idle {
+		busy := []int{}
+		for _, n := range live {
+			if n.Core.Busy() {
+				busy = append(busy, n.Idx)
+			}
+		}
+		if len(busy) == 0 && len(nw.joinOf) == 0 {
+			stuckOnly := true
+			for _, n := range nw.upReal() {
+				st := n.Node.GetState().String()
+				if (st == "CatchingUp" || st == "Joining") && !n.Silent {
+					stuckOnly = false
+				}
+			}
+			if stuckOnly {
+				idle = true
+			}
 		}
 	}
 	if !idle {
@@ -184,7 +211,7 @@ func checkLiveness(nw *Network, res *CaseResult, cycles int, idle bool, bound in
 		}
 		nw.violate("C06", "C06:not-idle-within-bound",
 			fmt.Sprintf("after %d fair all-pairs cycles among the live validators, nodes %v are still busy (or a join / fast-forward is still pending)", bound, busy),
-			map[string]interface{}{"busy": busy, "pending_joins": len(nw.joinOf)})
+			map[string]interface{}{"busy": busy, "pending_joins": len(nw.joinOf), "diag": progressDiag(nw, nil)})
 		return
 	}
 	if len(live) == 0 {
@@ -272,7 +299,7 @@ func checkLiveness(nw *Network, res *CaseResult, cycles int, idle bool, bound in
 			}
 		}
 		for _, st := range nw.SubmitOrder {
-			if !nw.Nodes[st.Node].babbling() || nw.Nodes[st.Node].Silent || nw.lostPool[st.Node] || st.Inc != nw.Nodes[st.Node].Incarnation {
+			if sn := nw.Nodes[st.Node]; !sn.babbling() || sn.Silent || nw.lostPool[st.Node] || st.Inc != sn.Incarnation || (sn.ResetEpochs > 0 && sn.InsertFailedStep >= 0) {
 				continue
 			}
 			res.count("liveness_tx_checks", 1)
